@@ -2131,6 +2131,16 @@ func (s *swamp) SaveFunction(t treasure.Treasure, guardID guard.ID) treasure.Tre
 		// treasure may still be sitting in the write buffer. We must remove it first,
 		// otherwise beacon.Add silently drops the new treasure (key already exists)
 		// and only the OpDelete gets flushed — causing data loss after swamp reopen.
+		//
+		// That pending delete marker also tells us that a record of this key is still on disk. The
+		// new treasure inherits its file name, so that deleting it again before the next flush
+		// writes a DELETE entry instead of merely dropping it from the write buffer (which left the
+		// old record on disk and brought the key back after a reopen).
+		if pending := s.treasuresWaitingForWriter.Get(t.GetKey()); pending != nil && t.GetFileName() == nil {
+			if fileName := pending.GetFileName(); fileName != nil {
+				t.BodySetFileName(guardID, *fileName)
+			}
+		}
 		s.treasuresWaitingForWriter.Delete(t.GetKey())
 
 		// add the treasure to the treasuresWaitingForWriter index
